@@ -56,6 +56,7 @@ def run(run, ix, tier):
     check_transcendental_endpoints(run, ix)
     check_percent_halfwidth(run, ix)
     check_outward_helper(run, ix)
+    check_atan2_corners(run, ix)
     # literal forms (rules of the C07 module, reported here as C-R6)
     from ..report import SubRun
     from . import c07
@@ -527,15 +528,29 @@ def check_conversions(run, ix):
                          'returned as (lower, upper)', line=f.lineno))
     g = ix.func(CTXIV, 'convert_mpf_')
     ok = True
+    kinds = set()
     for x in _walk_own(g.node):
-        if isinstance(x, ast.Call) and norm(x.func) in ('from_int', 'from_float', 'from_str'):
+        if isinstance(x, ast.Call) and norm(x.func) in ('from_int', 'from_float', 'from_str', 'from_rational'):
+            kinds.add(norm(x.func))
             a = [norm(t) for t in x.args]
+            if norm(x.func) == 'from_rational':
+                a = a[1:]
             if a[1:] != [g.params[1], g.params[2]]:
                 ok = False
                 run.fail(Finding('C-R6', CTXIV, g.qualname, norm(x),
                                  'conversion ignores the requested precision/direction', line=x.lineno))
             else:
                 run.ok('C-R6', 'convert_mpf_: %s' % norm(x))
+    # the kinds of input the statement lists: ints, floats, mpf values (taken over as they are), Fractions, strings
+    missing = sorted({'from_int', 'from_float', 'from_str', 'from_rational'} - kinds)
+    takes_mpf = any(isinstance(x, ast.Return) and norm(x.value).endswith('._mpf_') for x in _walk_own(g.node))
+    if missing or not takes_mpf:
+        run.fail(Finding('C-R6', CTXIV, g.qualname, 'raise NotImplementedError',
+                         'convert_mpf_ has no directed conversion for %s: such inputs raise NotImplementedError '
+                         'instead of giving an interval (iv.mpf(Fraction(1, 3)))'
+                         % (', '.join(m[5:] + ' inputs' for m in missing) or 'mpf values'), line=g.lineno))
+    else:
+        run.ok('C-R6', 'convert_mpf_ converts ints, floats, strings, rationals (directed) and takes mpf values over')
     # rationals and constants
     q = ix.func(CTXIV, 'MPIntervalContext._mpq')
     modes = [norm(x.args[3]) for x in sorted(
@@ -735,17 +750,129 @@ def check_outward_helper(run, ix):
     else:
         run.fail(Finding('C-R19', LIBMPI, 'mpf_outward', norm(fin[0]) if fin else 'def mpf_outward',
                          'the widened value is not rounded with the caller\'s precision and mode', line=f.lineno))
-    # (d) pass-through returns
+    # (d) pass-through returns: the special value, or the kernel's own directed rounding of an EXACTLY known value
     for r in rets:
         if r in fin:
             continue
         par = getattr(r, '_parent', None)
         t = norm(par.test) if isinstance(par, ast.If) else ''
-        if norm(r.value) == 'v' and (t == 'not man' or (len(P) > 4 and t.startswith(P[4] + ' and '))):
+        if norm(r.value) == 'v' and t == 'not man':
             run.ok('C-R19', 'mpf_outward: `%s` only under `%s`' % (norm(r), t))
+            continue
+        why = exact_table_passthrough(ix, f, r)
+        if why is None:
+            run.ok('C-R19', 'mpf_outward: `%s` only for a positive integer below the kernels\' exact table, where they '
+                   'round the exact value with the caller\'s precision and mode' % norm(r, 50))
         else:
             run.fail(Finding('C-R19', LIBMPI, 'mpf_outward', norm(r), 'the kernel value is handed back without '
-                             'widening under `%s`' % (t or 'no condition'), line=r.lineno))
+                             'widening under `%s`: %s' % (t or 'no condition', why), line=r.lineno))
+
+
+def exact_table_passthrough(ix, f, r):
+    """The only unwidened non-special return of mpf_outward that is a bound: `return f(*(args + (prec, rounding)))`
+    under the flag parameter and a test that the first argument is a positive integer below the bound of the gamma
+    kernels' table of exact factorials; and the kernels, under the same bound, return a correctly rounded primitive
+    (mpf_pos / mpf_div) of table entries with the caller's precision and mode.  (Until repair 7d559d3 the shortcut
+    was `return v` when the (prec+20)-bit kernel value happened to have at most prec bits -- true with probability
+    2**-20 for an inexact value; the earlier version of this rule accepted any test that began with the flag.)
+    Returns None when all of this holds, else the reason."""
+    P = f.params
+    v = r.value
+    want = 'f(*args + (%s, %s))' % (P[2], P[3])
+    if norm(v).replace('(args + ', 'args + ').replace('))', ')') != want.replace('))', ')') and \
+            norm(v) != 'f(*(args + (%s, %s)))' % (P[2], P[3]):
+        return 'it is not the kernel called with the caller\'s precision and rounding mode'
+    tests = []
+    p = r
+    while p is not f.node:
+        par = p._parent
+        if isinstance(par, ast.If) and p in par.body:
+            tests.extend(par.test.values if isinstance(par.test, ast.BoolOp) and isinstance(par.test.op, ast.And)
+                         else [par.test])
+        p = par
+    tn = [norm(t) for t in tests]
+    if len(P) < 5 or P[4] not in tn:
+        return 'not under the exact-at-integers flag'
+    # the tuple that is tested is args[0]
+    unpack = [a for a in _walk_own(f.node) if isinstance(a, ast.Assign) and norm(a.value) == 'args[0]' and
+              isinstance(a.targets[0], ast.Tuple) and len(a.targets[0].elts) == 4 and a.lineno < r.lineno]
+    if not unpack:
+        return 'the tested fields are not those of the first argument'
+    sg, mn, ex, bc = [norm(e) for e in unpack[-1].targets[0].elts]
+    need = [mn, 'not %s' % sg, '%s >= 0' % ex]
+    for n_ in need:
+        if n_ not in tn:
+            return 'the guard lacks `%s` (a positive integer argument)' % n_
+    bound = [t for t in tests if isinstance(t, ast.Compare) and len(t.ops) == 1 and isinstance(t.ops[0], ast.Lt) and
+             norm(t.left).strip('()') == '%s << %s' % (mn, ex) and norm(t.comparators[0]) == 'SMALL_FACTORIAL_CACHE_SIZE']
+    if not bound:
+        return 'the guard does not bound the integer by SMALL_FACTORIAL_CACHE_SIZE, the size of the kernels\' exact table'
+    # the kernels: every caller that sets the flag passes a gamma kernel that serves the table under the same bound
+    GZ = 'mpmath/libmp/gammazeta.py'
+    g = ix.func(GZ, 'mpf_gamma')
+    served = {}
+    for x in _walk_own(g.node):
+        if isinstance(x, ast.If) and norm(x.test) == 'n < SMALL_FACTORIAL_CACHE_SIZE':
+            for b in x.body:
+                if isinstance(b, ast.If) and isinstance(b.test, ast.Compare) and norm(b.test.left) == 'type' and \
+                        isinstance(b.test.comparators[0], ast.Constant) and b.body and isinstance(b.body[0], ast.Return):
+                    served[b.test.comparators[0].value] = b.body[0].value
+    kernels = {'mpf_gamma': 0, 'mpf_rgamma': 2}
+    callers = []
+    mod = ix.modules[LIBMPI]
+    for x in ast.walk(mod.tree):
+        if isinstance(x, ast.Call) and norm(x.func) == 'mpf_outward':
+            flag = (len(x.args) > 4 and norm(x.args[4]) == 'True') or \
+                any(k.arg == P[4] and norm(k.value) == 'True' for k in x.keywords)
+            if flag:
+                callers.append(x)
+    if not callers:
+        return None
+    for c in callers:
+        k = norm(c.args[0])
+        if k not in kernels:
+            return 'the flag is set for `%s`, which has no table of exact values' % k
+        ret = served.get(kernels[k])
+        if ret is None:
+            return 'mpf_gamma no longer serves type %d from its table under n < SMALL_FACTORIAL_CACHE_SIZE' % kernels[k]
+        ok = isinstance(ret, ast.Call) and norm(ret.func) in ('mpf_pos', 'mpf_div') and \
+            [norm(a) for a in ret.args[-2:]] == ['prec', 'rnd'] and \
+            all('small_factorial_cache' in norm(a) or norm(a) == 'fone' for a in ret.args[:-2])
+        if not ok:
+            return 'under the table bound mpf_gamma (type %d) returns `%s`, not a correctly rounded primitive of ' \
+                   'table entries at (prec, rnd)' % (kernels[k], norm(ret, 60))
+    for w, ty in (('mpf_rgamma', 2),):
+        wf = ix.func(GZ, w)
+        rr = [x for x in _walk_own(wf.node) if isinstance(x, ast.Return)]
+        if not (len(rr) == 1 and norm(rr[0].value) == 'mpf_gamma(x, prec, rnd, %d)' % ty):
+            return '%s does not forward (x, prec, rnd) to mpf_gamma with type %d' % (w, ty)
+    return None
+
+
+# --------------------------------------------------------------------------- C-R20
+def check_atan2_corners(run, ix):
+    """C-R20.  Corner choice of mpi_atan2 (sa/atan2_corners.py): the function is interpreted once per sign
+    configuration of the four endpoints (36 of them); the symbolic endpoints it returns are compared with the infimum
+    and supremum of atan2 over the open-quadrant parts, axis segments and origin of the box, derived from the
+    monotonicity of atan2 and not from the code."""
+    from .. import atan2_corners
+    run.rule('C-R20', floor=36, desc='mpi_atan2 returns, for every sign configuration of the box, endpoints that bound '
+             'atan2 over every part of the box')
+    f = ix.func(LIBMPI, 'mpi_atan2')
+    seen = set()
+    for signs, problem, ret in atan2_corners.check(f.node):
+        cfg = 'ya %s, yb %s, xa %s, xb %s' % tuple('<=>'[signs[k] + 1] + ' 0' for k in ('ya', 'yb', 'xa', 'xb'))
+        if problem is None:
+            run.ok('C-R20', 'mpi_atan2 [%s]: `%s` bounds atan2 over the box' % (cfg, norm(ret, 40)))
+        else:
+            key = (norm(ret), problem)
+            if key in seen:
+                run.ok('C-R20', 'mpi_atan2 [%s]: same defect as reported' % cfg)
+                continue
+            seen.add(key)
+            run.fail(Finding('C-R20', LIBMPI, 'mpi_atan2', problem,
+                             'for a box with %s (reached return: `%s`): %s' % (cfg, norm(ret, 40), problem),
+                             line=ret.lineno))
 
 
 # --------------------------------------------------------------------------- C-R2x
